@@ -17,12 +17,19 @@ R15.2  the polling loop has no infinite path once every awaited entity is
        every round, START: the stamp taken before the loop, through locals and
        helpers); with a == -b the difference grows with the sign of a, which
        with the operator gives the truth of the test once time has gone on
-       (`timeout <= start - now` never fires).
+       (`timeout <= start - now` never fires).  When the clock reads cancel
+       (a == b == 0: the stamp is taken anew in every round - on every path
+       of the round to the test - or both reads are taken before the loop) the
+       'elapsed time' does not grow and the test never fires either.
        Predicates extracted into helpers, nested closures (which may read the
        locals of the wait function and `self`), lambdas and if-return chains
        are read as the boolean expression they return (all rules).
 R15.3  every `return` of the four functions returns a state read that is not
-       older than the polling loop.  The list wait_tasks / wait_pilots return
+       older than the polling loop - also when the returned value is looked up
+       in a local memo (`seen.get(uid, <fresh read>)`, `last[uid]`): every
+       state read stored into the memo (`D[k] = x.state`, `D.update({..})`,
+       `D = {..}`, append / setdefault) is a source of the returned value, and
+       none may be made before or inside the loop.  The list wait_tasks / wait_pilots return
        is index-aligned with the awaited uids: the per-uid state reads walk
        the `uids` (all of them, in the caller's order: not `sorted(uids)`,
        `uids[1:]`, a filtered walk or the check list), one state per round,
@@ -74,6 +81,12 @@ R15.9  "has reached", not "is in": the keep-waiting condition of all four is
        entity only passes through is never seen by a membership test; only
        wait_tasks compares values.  (KNOWN findings on today's tree for
        Task.wait, Pilot.wait and wait_pilots.)
+R15.10 "shortly after": every bounded blocking call of the polling loop has a
+       period whose least upper bound over ALL rounds is at most POLL_LIMIT
+       (1 s; the code polls every 0.1 s).  The period is evaluated by value:
+       constants folded, locals followed, min / max / helpers, and a period
+       computed from its own previous value (`d = min(d * 2, cap)`, `d += s`:
+       a back-off) iterated from its initial value to its fixpoint.
 """
 
 import ast
@@ -777,7 +790,7 @@ def _lin_add(a, b, k=1):
     return out
 
 
-def _linear(prog, f, g, at, loops, e, tname, depth=0):
+def _linear(prog, f, g, at, loops, e, tname, depth=0, lazy=None):
     """coefficients of the expression `e` (evaluated at cfg node `at`) over
     NOW (a clock read that is evaluated afresh in every round of one of the
     `loops`), START (a clock read taken outside of them: the stamp), 'tmo'
@@ -786,15 +799,18 @@ def _linear(prog, f, g, at, loops, e, tname, depth=0):
     from ..flow import reaching_defs
     if depth > 6:
         raise _NotLinear()
+    # an expression `_timeout_view` put in the place of a local is evaluated
+    # where that local is defined, not where the test stands
+    at = getattr(e, '_c15_at', at)
     if isinstance(e, ast.Constant) and isinstance(e.value, (int, float)) and \
             not isinstance(e.value, bool):
         return {'const': e.value}
     if isinstance(e, ast.UnaryOp) and isinstance(e.op, (ast.USub, ast.UAdd)):
-        v = _linear(prog, f, g, at, loops, e.operand, tname, depth + 1)
+        v = _linear(prog, f, g, at, loops, e.operand, tname, depth + 1, lazy)
         return v if isinstance(e.op, ast.UAdd) else _lin_add({}, v, -1)
     if isinstance(e, ast.BinOp) and isinstance(e.op, (ast.Add, ast.Sub)):
-        l = _linear(prog, f, g, at, loops, e.left, tname, depth + 1)
-        r = _linear(prog, f, g, at, loops, e.right, tname, depth + 1)
+        l = _linear(prog, f, g, at, loops, e.left, tname, depth + 1, lazy)
+        r = _linear(prog, f, g, at, loops, e.right, tname, depth + 1, lazy)
         return _lin_add(l, r, 1 if isinstance(e.op, ast.Add) else -1)
     if isinstance(e, ast.Name):
         if e.id == tname:
@@ -804,10 +820,19 @@ def _linear(prog, f, g, at, loops, e, tname, depth=0):
         defs = reaching_defs(g, e.id, at)
         if not defs or any(v is None for dn, v in defs):
             raise _NotLinear()
-        vals = [_linear(prog, f, g, dn.id, loops, v, tname, depth + 1)
+        vals = [_linear(prog, f, g, dn.id, loops, v, tname, depth + 1, lazy)
                 for dn, v in defs]
-        vals = [{k: c for k, c in v.items() if c} for v in vals]
-        if any(v != vals[0] for v in vals[1:]):
+        if lazy is not None:
+            # a definition inside the loop that a round can go around: the
+            # value used may stem from an earlier round (a stamp taken lazily
+            # in the first round is not 'fresh in every round')
+            for dn, v in defs:
+                hs = [h for h in loops if h in g.nodes[dn.id].loops]
+                if hs and at != dn.id and at in g.reachable(
+                        succ_ids(g, hs[-1]), skip_nodes={dn.id, hs[-1]}):
+                    lazy.append(e.id)
+        nz = [{k: c for k, c in v.items() if c} for v in vals]
+        if any(v != nz[0] for v in nz[1:]):
             raise _NotLinear()
         return vals[0]
     if isinstance(e, ast.Call):
@@ -815,10 +840,10 @@ def _linear(prog, f, g, at, loops, e, tname, depth=0):
             fresh = any(h in g.nodes[at].loops or h == at for h in loops)
             return {'now' if fresh else 'start': 1}
         if dotted(e.func) == 'float' and len(e.args) == 1 and not e.keywords:
-            return _linear(prog, f, g, at, loops, e.args[0], tname, depth + 1)
+            return _linear(prog, f, g, at, loops, e.args[0], tname, depth + 1, lazy)
         body = inline_pred(prog, f, e, value=True)
         if body is not None:
-            return _linear(prog, f, g, at, loops, body, tname, depth + 1)
+            return _linear(prog, f, g, at, loops, body, tname, depth + 1, lazy)
     raise _NotLinear()
 
 
@@ -834,13 +859,26 @@ def _elapsed_test(prog, f, g, node, atom, tname):
     loops = g.nodes[node.id].loops
     if not loops:
         return None
+    lazy = []
     try:
-        l = _linear(prog, f, g, node.id, loops, atom.left, tname)
-        r = _linear(prog, f, g, node.id, loops, atom.comparators[0], tname)
+        l = _linear(prog, f, g, node.id, loops, atom.left, tname, 0, lazy)
+        r = _linear(prog, f, g, node.id, loops, atom.comparators[0], tname,
+                    0, lazy)
     except _NotLinear:
         return None
     d = _lin_add(l, r, -1)
     a, b, c = d.get('now', 0), d.get('start', 0), d.get('tmo', 0)
+    if not a and not b and c and ('now' in d or 'start' in d) and not lazy:
+        # the clock reads cancel: both are taken anew in every round (the
+        # stamp is re-taken inside the loop: the 'elapsed time' is that of one
+        # round) or both before the loop (it is 0 for ever).  The difference
+        # does not grow with time: for a timeout longer than one round the
+        # truth of the test is that of `c * timeout op 0`
+        if isinstance(op, (ast.GtE, ast.Gt)):
+            return c > 0
+        if isinstance(op, (ast.LtE, ast.Lt)):
+            return c < 0
+        return None
     if not a or a != -b or not c:
         return None
     if isinstance(op, (ast.GtE, ast.Gt)):
@@ -928,6 +966,10 @@ def _timeout_view(f, g, node, tname, val='pos'):
                 'from the timeout in a way the recogniser does not follow'
                 % (f.where, x.id, short(atom, 60)))
         mapping[x.id] = dep[0]
+        for dn, v in defs:
+            if v is dep[0]:
+                for sub in ast.walk(v):      # (kept by the copy `substitute`
+                    sub._c15_at = dn.id      #  makes: see _linear)
         if val == 'zero':
             dn = [d for d, v in defs if v is dep[0]][0]
             if any(lab == 'T' and isinstance(g.nodes[t].ast, ast.Name) and
@@ -1298,7 +1340,9 @@ def r15_2(prog, rep, rid='R15.2'):
                             'orientation (the test must become true as time '
                             'goes on: timeout <= NOW - START, with START the '
                             'stamp taken before the loop - not START - NOW, '
-                            'not >=): the wait outlasts its timeout'
+                            'not >=, and not a stamp that is taken anew in '
+                            'every round, which measures one round only): the '
+                            'wait outlasts its timeout'
                             % f.qual, f.loc(loop),
                             history='%s.%s(rps.%s, timeout=1.0) while the %s '
                             'stays in an earlier state: the call does not '
@@ -1362,6 +1406,193 @@ def _filled_by_state_reads(g, name, dn, val):
     if not reads:
         return []
     return [ast.List(elts=reads, ctx=ast.Load())] + nodes
+
+
+# --- R15.3: a returned value that is looked up in a local memo of state reads -
+#
+def _memo_writes(g, name):
+    """the values stored into the local container `name` anywhere in the
+    function: [(cfg node id, value expr)]; None when `name` is bound or filled
+    in a way that is not followed (an alias, a call result, `+=`)"""
+    out = []
+    for n in g.nodes:
+        a = n.ast
+        if a is None:
+            continue
+        if n.kind == 'for' and name in stores_in_target(a.target):
+            return None
+        if n.kind == 'with' and any(
+                i.optional_vars is not None and
+                name in stores_in_target(i.optional_vars) for i in a.items):
+            return None
+        if n.kind != 'stmt':
+            continue
+        if isinstance(a, (ast.AugAssign, ast.AnnAssign)) and \
+                name in stores_in_target(a.target):
+            return None
+        if isinstance(a, ast.Assign):
+            for t in a.targets:
+                if isinstance(t, ast.Name) and t.id == name:
+                    v = a.value
+                    if isinstance(v, ast.Dict):
+                        if any(k is None for k in v.keys):
+                            return None
+                        out += [(n.id, x) for x in v.values]
+                    elif isinstance(v, ast.DictComp):
+                        out.append((n.id, v.value))
+                    elif isinstance(v, (ast.ListComp, ast.SetComp)):
+                        out.append((n.id, v.elt))
+                    elif isinstance(v, (ast.List, ast.Tuple, ast.Set)):
+                        out += [(n.id, x) for x in v.elts]
+                    elif isinstance(v, ast.Call) and dotted(v.func) in (
+                            'dict', 'list', 'set') and not v.args and \
+                            not v.keywords:
+                        pass
+                    else:
+                        return None
+                elif isinstance(t, ast.Subscript) and \
+                        isinstance(t.value, ast.Name) and t.value.id == name:
+                    out.append((n.id, a.value))
+                elif name in stores_in_target(t):
+                    return None
+        for c in calls_in(a):
+            fn = c.func
+            if not (isinstance(fn, ast.Attribute) and
+                    isinstance(fn.value, ast.Name) and fn.value.id == name):
+                continue
+            if fn.attr in ('append', 'add') and len(c.args) == 1:
+                out.append((n.id, c.args[0]))
+            elif fn.attr == 'setdefault' and len(c.args) == 2:
+                out.append((n.id, c.args[1]))
+            elif fn.attr == 'insert' and len(c.args) == 2:
+                out.append((n.id, c.args[1]))
+            elif fn.attr in ('update', 'extend'):
+                if len(c.args) != 1 or c.keywords:
+                    return None
+                v = c.args[0]
+                if isinstance(v, ast.Dict) and \
+                        not any(k is None for k in v.keys):
+                    out += [(n.id, x) for x in v.values]
+                elif isinstance(v, ast.DictComp):
+                    out.append((n.id, v.value))
+                elif isinstance(v, (ast.ListComp, ast.GeneratorExp)):
+                    out.append((n.id, v.elt))
+                elif isinstance(v, (ast.List, ast.Tuple)):
+                    out += [(n.id, x) for x in v.elts]
+                else:
+                    return None
+    return out
+
+
+def _value_sources(f, g, e, at, depth=0):
+    """the state reads the value of `e` (evaluated at cfg node `at`) can come
+    from, through locals, `a if c else b` / `a or b`, and look-ups in a local
+    memo (`D[k]`, `D.get(k, default)`: whatever was stored into D, and the
+    default): [(cfg node id of the read, read expr)]; None if not followed"""
+    from ..flow import reaching_defs
+    if depth > 6:
+        return None
+    if isinstance(e, ast.Attribute) and e.attr in STATE_ATTRS:
+        return [(at, e)]
+    if isinstance(e, ast.Constant):
+        return []
+    if isinstance(e, ast.IfExp):
+        parts = [e.body, e.orelse]
+    elif isinstance(e, ast.BoolOp):
+        parts = e.values
+    else:
+        parts = None
+    if parts is not None:
+        out = []
+        for p in parts:
+            s = _value_sources(f, g, p, at, depth + 1)
+            if s is None:
+                return None
+            out += s
+        return out
+    memo, default = None, None
+    if isinstance(e, ast.Call) and isinstance(e.func, ast.Attribute) and \
+            e.func.attr == 'get' and isinstance(e.func.value, ast.Name) and \
+            1 <= len(e.args) <= 2 and not e.keywords:
+        memo = e.func.value.id
+        default = e.args[1] if len(e.args) == 2 else None
+    elif isinstance(e, ast.Subscript) and isinstance(e.value, ast.Name) and \
+            not isinstance(e.slice, ast.Slice):
+        memo = e.value.id
+    if memo is not None:
+        if memo in f.params:
+            return None
+        writes = _memo_writes(g, memo)
+        if not writes:
+            return None
+        out = []
+        for nid, v in writes:
+            s = _value_sources(f, g, v, nid, depth + 1)
+            if s is None:
+                return None
+            out += s
+        if default is not None:
+            s = _value_sources(f, g, default, at, depth + 1)
+            if s is None:
+                return None
+            out += s
+        return out
+    if isinstance(e, ast.Name) and e.id not in f.params:
+        defs = reaching_defs(g, e.id, at)
+        if not defs or any(v is None for dn, v in defs):
+            return None
+        out = []
+        for dn, v in defs:
+            s = _value_sources(f, g, v, dn.id, depth + 1)
+            if s is None:
+                return None
+            out += s
+        return out
+    return None
+
+
+def _derived_reads(f, g, val, at, nodes=()):
+    """`val` (the returned expression, or the definition of the returned
+    local; for a list filled by an append loop the equivalent list with the
+    appending cfg `nodes`) is not a plain state read: the state reads its
+    value - or each of its elements - comes from, [(cfg node id, read)], or
+    None when it is not built from state reads in a way that is followed"""
+    if isinstance(val, ast.ListComp):
+        if len(val.generators) != 1:
+            return None
+        items = [(val.elt, at)]
+    elif isinstance(val, (ast.List, ast.Tuple)):
+        if not val.elts:
+            return None
+        at_nodes = list(nodes) if len(nodes) == len(val.elts) \
+            else [at] * len(val.elts)
+        items = list(zip(val.elts, at_nodes))
+    else:
+        items = [(val, at)]
+    out = []
+    for e, nid in items:
+        s = _value_sources(f, g, e, nid)
+        if not s:
+            return None
+        out += s
+    return out
+
+
+def _stale_why(what, f, g, head, old):
+    """message part for a returned value with out-of-date sources"""
+    nid, e = old[0]
+    n = g.nodes[nid]
+    where = 'inside' if nid in g.loop_body[head] or nid == head else 'before'
+    stmt = n.ast if n.kind == 'stmt' else e
+    return 'returns %s, which can be the state `%s` that was read %s the ' \
+        'polling loop and remembered (`%s`): it is not read again when the ' \
+        'wait ends' % (what, short(e, 30), where, short(stmt, 50))
+
+
+def _stale_reads(g, head, srcs):
+    """the state reads among `srcs` that are made before or inside the polling
+    loop: what they saw can be out of date when the function returns"""
+    return [(nid, e) for nid, e in srcs if head in g.reachable(nid)]
 
 
 # --- R15.3, second clause: the returned list is index-aligned with the uids ---
@@ -1648,6 +1879,12 @@ def r15_3(prog, rep, rid='R15.3'):
                     'nothing (None)' if v is None else unparse(v))
             elif _is_state_read(v):
                 okay = True
+            elif not isinstance(v, (ast.Name, ast.Subscript)) and \
+                    _derived_reads(f, g, v, n.id):
+                old = _stale_reads(g, head, _derived_reads(f, g, v, n.id))
+                okay = not old
+                if old:
+                    why = _stale_why('`%s`' % short(v, 40), f, g, head, old)
             else:
                 base = v
                 if isinstance(base, ast.Subscript):
@@ -1675,6 +1912,19 @@ def r15_3(prog, rep, rid='R15.3'):
                             else:
                                 verdicts.append((True, ''))
                             if whole and not isinstance(val, ast.Attribute):
+                                aligned += _alignment(f, g, head, base.id, dn,
+                                                      val, filled, n)
+                        elif val is not None and _derived_reads(
+                                f, g, val, dn.id, filled[1:]):
+                            old = _stale_reads(g, head, _derived_reads(
+                                f, g, val, dn.id, filled[1:]))
+                            if old:
+                                verdicts.append((False, _stale_why(
+                                    repr(base.id), f, g, head, old)))
+                            else:
+                                verdicts.append((True, ''))
+                            if whole and (filled or
+                                          isinstance(val, ast.ListComp)):
                                 aligned += _alignment(f, g, head, base.id, dn,
                                                       val, filled, n)
                         elif val is not None and not reads_state_attr(val):
@@ -3692,6 +3942,189 @@ def r15_7(prog, rep, rid='R15.7'):
 
 
 # ------------------------------------------------------------------------------
+# R15.10  the poll period stays short in every round
+#
+INF = float('inf')
+
+# "shortly after": what the wait may add to the moment the awaited state was
+# reached / the timeout expired is one poll period.  The unchanged code polls
+# every 0.1 s; ten times that is the most this check takes for "shortly"
+POLL_LIMIT = 1.0
+
+
+def _period_sup(prog, f, g, e, at, env=None, depth=0):
+    """least upper bound, over all rounds of the loops, of the non-negative
+    number `e` (a blocking period, evaluated at cfg node `at`): constants are
+    folded, locals followed to the definitions that reach the use; a local
+    that is computed from its own previous value (`d = min(d * 2, cap)`,
+    `d += step`) is iterated from its initial value to its fixpoint - INF if
+    it keeps growing.  Values derived from the timeout are INF.  _Unk if an
+    operand is not followed"""
+    from ..flow import reaching_defs
+    env = env or {}
+    if depth > 12:
+        raise _Unk(short(e, 40))
+    if isinstance(e, ast.Constant):
+        if _number(e.value):
+            return float(e.value)
+        if e.value is None:
+            return INF
+        raise _Unk(short(e, 40))
+    if isinstance(e, ast.Name) and (e.id in f.params or
+                                    reaching_defs(g, e.id, at)):
+        if e.id in env:
+            return env[e.id]
+        defs = reaching_defs(g, e.id, at)
+        if e.id in f.params:
+            dn = [d.id for d, v in defs]
+            if not dn or at in g.reachable(g.entry.id, skip_nodes=set(dn)):
+                if e.id != 'timeout':
+                    raise _Unk('parameter `%s`' % e.id)
+                return INF
+        cur = 0.0
+        for _ in range(64):
+            env2 = dict(env)
+            env2[e.id] = cur
+            new = cur
+            for dn, val in defs:
+                if val is None:
+                    a = dn.ast
+                    if not (dn.kind == 'stmt' and
+                            isinstance(a, ast.AugAssign)):
+                        raise _Unk(e.id)
+                    v = _period_sup(prog, f, g, a.value, dn.id, env2,
+                                    depth + 1)
+                    if isinstance(a.op, ast.Add):
+                        x = cur + v
+                    elif isinstance(a.op, ast.Mult):
+                        x = cur * v
+                    elif isinstance(a.op, (ast.Sub, ast.Div)):
+                        x = cur                  # shrinks (operands >= 0 ..)
+                        if isinstance(a.op, ast.Div) and v < 1:
+                            raise _Unk(short(a, 40))
+                    else:
+                        raise _Unk(short(a, 40))
+                else:
+                    x = _period_sup(prog, f, g, val, dn.id, env2, depth + 1)
+                new = max(new, x)
+            if new <= cur:
+                return cur
+            cur = new
+            if cur == INF:
+                return INF
+        return INF
+    if not isinstance(e, ast.Call):
+        v = prog.fold(f.module, e, f.cls)
+        if v is not UNKNOWN and _number(v):
+            return float(v)
+        if isinstance(e, (ast.Name, ast.Attribute)):
+            raise _Unk(short(e, 40))
+    if isinstance(e, ast.Call) and isinstance(e.func, ast.Name) and \
+            not e.keywords:
+        if e.func.id in ('min', 'max') and len(e.args) >= 2:
+            vals = []
+            for a in e.args:
+                try:
+                    vals.append(_period_sup(prog, f, g, a, at, env,
+                                            depth + 1))
+                except _Unk:
+                    if e.func.id == 'max':
+                        raise
+                    vals.append(INF)
+            return min(vals) if e.func.id == 'min' else max(vals)
+        if e.func.id in ('float', 'int', 'abs', 'round') and e.args:
+            return _period_sup(prog, f, g, e.args[0], at, env, depth + 1)
+    if isinstance(e, ast.Call):
+        body = inline_pred(prog, f, e, value=True)
+        if body is not None:
+            return _period_sup(prog, f, g, body, at, env, depth + 1)
+        if clock_of(prog, f, e, f.module.local_imports(f.node)):
+            return INF
+        raise _Unk(short(e, 40))
+    if isinstance(e, ast.BinOp):
+        l = _period_sup(prog, f, g, e.left, at, env, depth + 1)
+        if isinstance(e.op, ast.Sub):
+            return l                             # minus something >= 0
+        r = _period_sup(prog, f, g, e.right, at, env, depth + 1)
+        if isinstance(e.op, ast.Add):
+            return l + r
+        if isinstance(e.op, ast.Mult):
+            return 0.0 if 0.0 in (l, r) else l * r
+        if isinstance(e.op, ast.Div):
+            d = prog.fold(f.module, e.right, f.cls)
+            if d is not UNKNOWN and _number(d) and d > 0:
+                return l / d
+        raise _Unk(short(e, 40))
+    if isinstance(e, ast.UnaryOp) and isinstance(e.op, ast.UAdd):
+        return _period_sup(prog, f, g, e.operand, at, env, depth + 1)
+    if isinstance(e, ast.IfExp):
+        return max(_period_sup(prog, f, g, e.body, at, env, depth + 1),
+                   _period_sup(prog, f, g, e.orelse, at, env, depth + 1))
+    if isinstance(e, ast.BoolOp):
+        return max(_period_sup(prog, f, g, x, at, env, depth + 1)
+                   for x in e.values)
+    raise _Unk(short(e, 40))
+
+
+def r15_10(prog, rep, rid='R15.10'):
+    rep.rule(rid, 'a wait that polls looks at the states again after a short '
+             'period in EVERY round: the least upper bound of the period of '
+             'each bounded blocking call of the polling loop, over all rounds '
+             '(a period computed from its own previous value is iterated to '
+             'its fixpoint), is at most %.1f s' % POLL_LIMIT, minimum=4)
+    events = _event_attrs(prog)
+    for rel, cname, mname, what in ANCHORS:
+        f = prog.method(rel, cname, mname)
+        rep.saw(f)
+        g = cfg_of(f)
+        head = wait_loop(f, g)
+        asked = 'DONE' if what == 'task' else 'PMGR_ACTIVE'
+        for n, c, kind, ev, per in blocking_calls(prog, f, g, events):
+            if n.id not in g.loop_body[head]:
+                continue
+            if kind == 'delegate':
+                rep.ok(rid, f, '%s: `%s` hands the wait over to another wait '
+                       'anchor, whose own period is checked' % (
+                           f.qual, short(c, 50)), f.loc(c))
+                continue
+            try:
+                if not _bounded(prog, f, g, per, n.id):
+                    # not a poll: R15.7 decides who ends the blocking call
+                    rep.ok(rid, f, '%s: `%s` does not poll (its period is '
+                           'not bounded by a constant: R15.7 decides who '
+                           'wakes it)' % (f.qual, short(c, 50)), f.loc(c))
+                    continue
+                sup = _period_sup(prog, f, g, per, n.id)
+            except _Unk as e:
+                raise AnalysisError(
+                    'UNRECOGNISED-IDIOM %s: cannot evaluate the period of `%s` '
+                    '(%s)' % (f.where, short(c, 60), e))
+            grows = 'grows from round to round without bound' \
+                if sup == INF else \
+                'can be as long as %g s' % sup
+            rep.check(sup <= POLL_LIMIT, rid, f,
+                      '%s: `%s` blocks for at most %g s in every round'
+                      % (f.qual, short(c, 50), sup),
+                      construct='poll period of %s' % _callee_name(c),
+                      message='%s: the period of `%s` %s (evaluated over all '
+                      'rounds of the polling loop): the %s states and the '
+                      'timeout are not looked at again before it is over, so '
+                      'the call returns that much later than the awaited '
+                      'state was reached / than its timeout - not "shortly '
+                      'after" (the unchanged code polls every 0.1 s; this '
+                      'check accepts up to %.1f s)'
+                      % (f.qual, short(c, 50), grows, what, POLL_LIMIT),
+                      loc=f.loc(c),
+                      history='%s.%s(rps.%s) called long before the %s gets '
+                      'there (or with a timeout of a minute on a %s that '
+                      'never does): the call returns up to %s after the state '
+                      'was reached / the timeout expired'
+                      % (cname, mname, asked, what, what,
+                         'an unbounded time' if sup == INF else
+                         '%g s' % sup))
+
+
+# ------------------------------------------------------------------------------
 # R15.8  a wait that hands over to another wait hands over its timeout
 #
 SIGNS = ('neg', 'zero', 'pos')
@@ -4274,9 +4707,12 @@ def run(prog, rep, tier):
         'call of a wait anchor from the four classes: the timeout handed down '
         'is, whenever the caller was given one, a value the callee treats as '
         'a timeout (not None; 0 / negative only if the callee ends for it), '
-        'and shrinks with the clock when handed down in a loop.')
-    rep.undecided = ('"shortly after" (the poll period and scheduling of the '
-        'waiting thread); that the state attribute is eventually updated '
+        'and shrinks with the clock when handed down in a loop.  The poll '
+        'period of every bounded blocking call of the polling loops stays '
+        'at most one second in every round (R15.10).')
+    rep.undecided = ('"shortly after" below one second (the scheduling of the '
+        'waiting thread; R15.10 bounds the poll period by one second only); '
+        'that the state attribute is eventually updated '
         '(C05/C06/C14).')
     rep.assumptions = [
         'a final state never changes (C06 / C14), so a test `x.state in '
@@ -4308,6 +4744,10 @@ def run(prog, rep, tier):
         'd["state"]` does not change the state; statements after a write do '
         'not raise; an event is an attribute of the four classes assigned '
         'from Event() / Condition() and is identified by its attribute name',
+        '"shortly after" tolerates a poll period of up to one second (ten '
+        'times the 0.1 s of the code); blocking periods are non-negative',
+        'a local memo of states (dict / list) is filled only by the stores '
+        'and dict / list methods on its own name inside the function',
         'inside a manager, `<x>.wait(..)` on something that is not such an '
         'event is the wait of the entity the manager manages; a timeout '
         'parameter that is given is a positive number; an exact 0 from a '
@@ -4322,6 +4762,7 @@ def run(prog, rep, tier):
     rep.attempt(r15_7, prog, rep)
     rep.attempt(r15_8, prog, rep)
     rep.attempt(r15_9, prog, rep)
+    rep.attempt(r15_10, prog, rep)
 
 
 # ------------------------------------------------------------------------------
@@ -5148,4 +5589,140 @@ SILENT += [
               "    # --------------------------------------------------------------------------\n    #\n    def cancel_tasks",
               "        return states if ret_list else states[0]\n\n\n"
               "    # --------------------------------------------------------------------------\n    #\n    def cancel_tasks")]),
+]
+
+
+# ------------------------------------------------------------------------------
+# round 6: seeds C15-i1 (R15.2), C15-i4 (R15.3), C15-i6 (R15.10)
+#
+_W_SELF   = ("        while self.state not in states and \\\n"
+             "              self.state not in rps.FINAL:\n\n")
+_TP_LOOP  = "        start_wait = time.time()\n" + _W_SELF + "            time.sleep(0.1)\n"
+_P_TEST   = "            if timeout and (timeout <= (time.time() - start_wait)):"
+_PM_ROUND = ("        self._rep.idle(mode='start')\n"
+             "        while to_check and not self._terminate.is_set():\n\n"
+             "            self._rep.idle()\n\n")
+_PM_RET   = _PM_READ + "\n        # done waiting\n        if ret_list: return states"
+_TM_CHECK = "            # check timeout\n            if timeout and (timeout <= (time.time() - start)):"
+
+MUTATIONS += [
+    # --- the stamp of the elapsed time is taken before the loop (seed C15-i1)
+    dict(name='R15.2 seed C15-i1: Pilot.wait takes start_wait anew in every round',
+         rules=('R15.2',), edits=[
+        (_P, _TP_LOOP, _W_SELF + "            start_wait = time.time()\n            time.sleep(0.1)\n")],
+         note='timeout=5 on a pilot that stays PMGR_LAUNCHING: the elapsed time is always ~0.1 s'),
+    dict(name='R15.2 Pilot.wait: stamp re-taken after the sleep, elapsed time in a local',
+         rules=('R15.2',), edits=[
+        (_P, _TP_LOOP + _P_TEST,
+             _W_SELF + "            time.sleep(0.1)\n            start_wait = time.time()\n"
+             "            elapsed = time.time() - start_wait\n"
+             "            if timeout and (timeout <= elapsed):")]),
+    dict(name='R15.2 Task.wait: `now` read once before the loop (elapsed time is 0 for ever)',
+         rules=('R15.2',), edits=[
+        (_T, _TP_LOOP + "\n" + _P_TEST,
+             "        start_wait = time.time()\n        now = time.time()\n" + _W_SELF +
+             "            time.sleep(0.1)\n\n            if timeout and (timeout <= (now - start_wait)):")]),
+    dict(name='R15.2 wait_tasks: start re-taken right before the timeout test',
+         rules=('R15.2',), edits=[
+        (_TM, _TM_CHECK, "            # check timeout\n            start = time.time()\n"
+                         "            if timeout and (timeout <= (time.time() - start)):")]),
+    dict(name='R15.2 wait_tasks: deadline re-computed from the clock in every round',
+         rules=('R15.2',), edits=[
+        (_TM, _TM_CHECK, "            # check timeout\n            if timeout:\n"
+                         "                deadline = time.time() + timeout\n"
+                         "            if timeout and (deadline <= time.time()):")]),
+    # --- returned states come from a memo filled inside the loop (seed C15-i4)
+    dict(name='R15.3 seed C15-i4: wait_pilots returns the states it remembered in `seen`',
+         rules=('R15.3',), edits=[
+        (_PM, _PM_ROUND, "        self._rep.idle(mode='start')\n        seen = dict()\n"
+                         "        while to_check and not self._terminate.is_set():\n\n"
+                         "            self._rep.idle()\n\n"
+                         "            seen.update({pilot.uid: pilot.state for pilot in to_check})\n"),
+        (_PM, _PM_RET, _PM_RET.replace("self._pilots[uid].state for",
+                                       "seen.get(uid, self._pilots[uid].state) for"))],
+         note='wait_pilots([p0, p1], PMGR_ACTIVE): p0 active, p0 FAILED, p1 active -> [PMGR_ACTIVE, PMGR_ACTIVE]'),
+    dict(name='R15.3 wait_tasks: states remembered per task when it is dropped, returned by subscript',
+         rules=('R15.3',), edits=[
+        (_TM, _TM_LOOP, "            check_again = list()\n            for task in to_check:\n"
+                        "                last[task.uid] = task.state\n\n"
+                        "                # we actually don't check if a task is in a specific (set of)\n"
+                        "                # state(s), but rather check if it ever *has been* in any of\n"
+                        "                # those states\n"),
+        (_TM, _TM_START, "        last     = dict()\n" + _TM_START),
+        (_TM, _TM_READ, "            states = [last[uid] if uid in last else self._tasks[uid].state\n"
+                        "                      for uid in uids]\n")]),
+    dict(name='R15.3 wait_pilots: memo filled before the loop, returned by an append loop',
+         rules=('R15.3',), edits=[
+        (_PM, _PM_ROUND, "        first = {p.uid: p.state for p in to_check}\n" + _PM_ROUND),
+        (_PM, _PM_READ, "            states = list()\n            for uid in uids:\n"
+                        "                states.append(first.get(uid) or self._pilots[uid].state)\n")]),
+    # --- the poll period stays short (seed C15-i6)
+    dict(name='R15.10 seed C15-i6: Task.wait backs off to a poll period of 10 s',
+         rules=('R15.10',), edits=[
+        (_T, _TP_LOOP, "        start_wait = time.time()\n        delay      = 0.1\n" + _W_SELF +
+                       "            time.sleep(delay)\n            delay = min(delay * 2, 10.0)\n")],
+         note='task DONE at t=93: the call returns at t=102.7; timeout=53: returns at t=62.7'),
+    dict(name='R15.10 Pilot.wait: poll period grows by 0.1 s per round, no cap',
+         rules=('R15.10',), edits=[
+        (_P, _TP_LOOP, "        start_wait = time.time()\n        delay      = 0.1\n" + _W_SELF +
+                       "            time.sleep(delay)\n            delay += 0.1\n")]),
+    dict(name='R15.10 wait_pilots: back-off through a helper lambda',
+         rules=('R15.10',), edits=[
+        (_PM, _PM_ROUND, "        nap = 0.1\n        backoff = lambda x: min(x * 1.5, 30)\n" + _PM_ROUND),
+        (_PM, "            time.sleep (0.1)\n\n        self._rep.idle(mode='stop')",
+              "            time.sleep (nap)\n            nap = backoff(nap)\n\n        self._rep.idle(mode='stop')")]),
+    dict(name='R15.10 wait_tasks: polls every 5 s', rules=('R15.10',), edits=[
+        (_TM, "            time.sleep (0.1)\n", "            time.sleep (5)\n")]),
+]
+
+SILENT += [
+    # --- the stamp
+    dict(name='Pilot.wait: stamp taken lazily in the first round (flag)', edits=[
+        (_P, _TP_LOOP, "        first = True\n" + _W_SELF +
+                       "            if first:\n                start_wait = time.time()\n"
+                       "                first = False\n            time.sleep(0.1)\n")]),
+    dict(name='Pilot.wait: stamp taken lazily in the first round (None)', edits=[
+        (_P, _TP_LOOP, "        start_wait = None\n" + _W_SELF +
+                       "            if start_wait is None:\n                start_wait = time.time()\n"
+                       "            time.sleep(0.1)\n")]),
+    dict(name='Pilot.wait: now and the elapsed time in locals of the round', edits=[
+        (_P, _TP_LOOP + _P_TEST, _TP_LOOP + "            now = time.time()\n            waited = now - start_wait\n"
+                                 "            if timeout and (timeout <= waited):")]),
+    dict(name='wait_tasks: deadline computed before the loop, compared with a fresh clock read', edits=[
+        (_TM, _TM_START, "        deadline = (time.time() + timeout) if timeout else None\n" + _TM_START),
+        (_TM, _TM_CHECK, "            # check timeout\n            if timeout and (deadline <= time.time()):")]),
+    # --- the returned states
+    dict(name='wait_pilots: current states collected into a dict after the loop, returned by look-up', edits=[
+        (_PM, _PM_READ, "            cur    = {uid: self._pilots[uid].state for uid in uids}\n"
+                        "            states = [cur[uid] for uid in uids]\n")]),
+    dict(name='wait_pilots: look-up with .get and a fresh read as default, memo filled after the loop', edits=[
+        (_PM, _PM_READ, "            cur = dict()\n            for uid in uids:\n"
+                        "                cur[uid] = self._pilots[uid].state\n"
+                        "            states = [cur.get(uid, self._pilots[uid].state) for uid in uids]\n")]),
+    dict(name='wait_pilots: states seen in the loop are remembered for the log only', edits=[
+        (_PM, _PM_ROUND, "        self._rep.idle(mode='start')\n        seen = dict()\n"
+                         "        while to_check and not self._terminate.is_set():\n\n"
+                         "            self._rep.idle()\n\n"
+                         "            seen.update({pilot.uid: pilot.state for pilot in to_check})\n"),
+        (_PM, _PM_READ, "            self._log.debug('seen while waiting: %s', seen)\n" + _PM_READ)]),
+    dict(name='wait_tasks: states read through a local of the round (append loop)', edits=[
+        (_TM, _TM_READ, "            states = list()\n            for uid in uids:\n"
+                        "                current = self._tasks[uid].state\n"
+                        "                states.append(current)\n")]),
+    # --- the poll period
+    dict(name='Task.wait: poll period in a local', edits=[
+        (_T, _TP_LOOP, "        start_wait = time.time()\n        period     = 0.1\n" + _W_SELF +
+                       "            time.sleep(period)\n")]),
+    dict(name='Task.wait: back-off capped at half a second', edits=[
+        (_T, _TP_LOOP, "        start_wait = time.time()\n        delay      = 0.1\n" + _W_SELF +
+                       "            time.sleep(delay)\n            delay = min(delay * 2, 0.5)\n")],
+         note='not the same timing, but still "shortly after" (the limit of R15.10 is 1 s)'),
+    dict(name='Task.wait: sleep clipped to what is left of the timeout', edits=[
+        (_T, _TP_LOOP, "        start_wait = time.time()\n" + _W_SELF +
+                       "            left = timeout - (time.time() - start_wait) if timeout else 0.1\n"
+                       "            time.sleep(max(0.0, min(0.1, left)))\n")]),
+    dict(name='wait_pilots: poll period from a helper closure', edits=[
+        (_PM, _PM_ROUND, "        def _period():\n            return 0.1\n" + _PM_ROUND),
+        (_PM, "            time.sleep (0.1)\n\n        self._rep.idle(mode='stop')",
+              "            time.sleep (_period())\n\n        self._rep.idle(mode='stop')")]),
 ]
